@@ -26,11 +26,13 @@ Real(yy, mm, dd) ==
   /\ LET n == DaysFromCivil(yy, mm, dd) IN
        InDateRange(n) /\ CivilFromDays(n) = <<yy, mm, dd, DayOfYear(yy, mm, dd)>>
 
-VerdictIsReal == gkind = "ymd" => ((YmdVerdict(gy, gm, gd) = 0) = Real(gy, gm, gd))
+VerdictIsReal == gkind = "ymd" => /\ (YmdVerdict(gy, gm, gd) = 0) = Real(gy, gm, gd)
+                                   /\ (YmdVerdict(gy, gm, gd) = 0) = (YmdKinds(gy, gm, gd) = {})
+                                   /\ (YmdVerdict(gy, gm, gd) # 0 => YmdVerdict(gy, gm, gd) \in YmdKinds(gy, gm, gd))
 
 Emit ==
   IF gkind = "ymd" THEN
     LET v == YmdVerdict(gy, gm, gd) IN
-    PrintT(<<"GEN", "ymd", gy, gm, gd, v, IF v = 0 THEN DaysFromCivil(gy, gm, gd) ELSE 0>>)
+    PrintT(<<"GEN", "ymd", gy, gm, gd, v, IF v = 0 THEN DaysFromCivil(gy, gm, gd) ELSE 0, YmdKindsSeq(gy, gm, gd)>>)
   ELSE PrintT(<<"GEN", "day", gy, IF InDateRange(gy) THEN 0 ELSE EDateOutOfRange>>)
 =============================================================================
